@@ -7,6 +7,7 @@
 //   -DVF_PART=0  native API, LimP4 key buckets, maxFastCount 1, 2, 7, 15
 //   -DVF_PART=1  native API, Open8 key buckets, maxFastCount 1, 2, 7, 15
 //   -DVF_PART=2  stdish::unordered_multimap / unordered_multimap_open (default settings)
+//   -DVF_PART=3  native API, further key buckets: LimP4<1>, LimP4<3>, Open2N2<1>, Open2N2<3>
 #include "momo/HashMultiMap.h"
 #include "momo/stdish/unordered_multimap.h"
 #include "common/verif_elems.h"
@@ -735,6 +736,11 @@ int main(int argc, char** argv)
 	runNativeCfg<KeyP, ElemNM, momo::HashBucketOpen8, 2, 2>(c, rng, "Open8", 7, "kp_nm");
 	runNativeCfg<KeyP, uint32_t, momo::HashBucketOpen8, 7, 1>(c, rng, "Open8", 7, "kp");
 	runNativeCfg<KeyA, uint32_t, momo::HashBucketOpen8, 15, 2>(c, rng, "Open8", 7, "ka");
+#elif VF_PART == 3
+	runNativeCfg<KeyP, uint32_t, momo::HashBucketLimP4<1>, 7, 1>(c, rng, "LimP4", 1, "kp");
+	runNativeCfg<KeyA, ElemNM, momo::HashBucketLimP4<3>, 1, 2>(c, rng, "LimP4", 3, "ka_nm");
+	runNativeCfg<KeyA, uint32_t, momo::HashBucketOpen2N2<1>, 2, 1>(c, rng, "Open2N2", 1, "ka");
+	runNativeCfg<KeyP, uint32_t, momo::HashBucketOpen2N2<3>, 15, 2>(c, rng, "Open2N2", 3, "kp");
 #else
 	{
 		typedef momo::stdish::unordered_multimap<uint32_t, uint32_t, FamHasher> W1;
